@@ -633,7 +633,7 @@ func (w *World) allDone() bool {
 func (w *World) describeStuck() string {
 	var parts []string
 	for i, c := range w.cs {
-		if len(c.waiting) > 0 {
+		if len(c.waiting) > 0 && !c.closed {
 			parts = append(parts, fmt.Sprintf("c%d waits for the reply to %s", i, cmdString(c.waiting[0].Args)))
 		}
 	}
